@@ -1,8 +1,75 @@
 import XmppModel.Prelude.Hex
-/-! Driver module for C14: `handle args` answers one protocol line (fields after the
-property id); `none` means the line is not understood (`!bad-op`). -/
-namespace XmppModel.Driver.C14
+import XmppModel.Model.Mux
+/-!
+Driver for C14 (see harness/c14).  Patterns are written `k:typ:space:loc` (k ∈ t|i|m|p, the
+other fields hex), pattern lists `,`-joined (`-` empty), names `space:loc` (hex).
 
-def handle (_args : List String) : Option String := none
+    lookup <k> <typ> <name> <patterns>            -> <pattern> | none
+    route <stanzaNS> <name> <patterns>            -> h=<pattern> | router | nop
+    children <k> <typ> <patterns> <toks> <cons>   -> `/`-joined <pattern>=<toks read> of the registered handlers that ran
+    iqdefault <typ> <name> <patterns>             -> h=<pattern> | fallback | nothing
+    register <patterns> <pattern> <nil>           -> ok | panic
+-/
+namespace XmppModel.Driver.C14
+open XmppModel XmppModel.Xml XmppModel.Mux
+
+def decKind (s : String) : Option Kind :=
+  if s == "t" then some .top else if s == "i" then some .iq else if s == "m" then some .msg
+  else if s == "p" then some .pres else none
+
+def encKind : Kind → String | .top => "t" | .iq => "i" | .msg => "m" | .pres => "p"
+
+def decPattern (s : String) : Option Pattern :=
+  match s.splitOn ":" with
+  | [k, t, sp, lo] => do
+    let k ← decKind k; let t ← unhexF t; let sp ← unhexF sp; let lo ← unhexF lo
+    pure ⟨k, t, ⟨sp, lo⟩⟩
+  | _ => none
+
+def encPattern (p : Pattern) : String :=
+  s!"{encKind p.kind}:{hexF p.typ}:{hexF p.name.space}:{hexF p.name.loc}"
+
+def decPatterns (s : String) : Option (List Pattern) :=
+  if s == "-" then some [] else mapM? decPattern (s.splitOn ",")
+
+def decName (s : String) : Option Name :=
+  match s.splitOn ":" with
+  | [sp, lo] => do
+    let sp ← unhexF sp; let lo ← unhexF lo
+    pure ⟨sp, lo⟩
+  | _ => none
+
+def decNats (s : String) : Option (List Nat) :=
+  if s == "-" then some [] else mapM? String.toNat? (s.splitOn ",")
+
+def field (s : String) : Option String := unhexF (if s == "-" then "" else s)
+
+def handle (args : List String) : Option String :=
+  match args with
+  | ["lookup", k, typ, n, pats] => do
+    let k ← decKind k; let typ ← field typ; let n ← decName n; let pats ← decPatterns pats
+    pure (match lookup pats k typ n with | some p => encPattern p | none => "none")
+  | ["route", ns, n, pats] => do
+    let ns ← field ns; let n ← decName n; let pats ← decPatterns pats
+    pure (match route pats ns n with
+      | .handler p => "h=" ++ encPattern p
+      | .nop => "nop"
+      | _ => "router")
+  | ["children", k, typ, pats, toks, cons] => do
+    let k ← decKind k; let typ ← field typ; let pats ← decPatterns pats
+    let toks ← decToks toks; let cons ← decNats cons
+    let calls := (forChildren pats k typ toks cons).filterMap fun c =>
+      c.pat.map fun p => encPattern p ++ "=" ++ encToks c.view
+    pure (if calls.isEmpty then "-" else "/".intercalate calls)
+  | ["iqdefault", typ, n, pats] => do
+    let typ ← field typ; let n ← decName n; let pats ← decPatterns pats
+    pure (match iqDispatch pats typ n with
+      | .handler p => "h=" ++ encPattern p
+      | .fallback => "fallback"
+      | .nothing => "nothing")
+  | ["register", pats, p, nl] => do
+    let pats ← decPatterns pats; let p ← decPattern p; let nl ← parseBool nl
+    pure (match register pats p nl with | some _ => "ok" | none => "panic")
+  | _ => none
 
 end XmppModel.Driver.C14
